@@ -21,6 +21,13 @@ for pid in ids:
         checks.append(c)
     else:
         notapp.append({"property_id": pid, "reason": na.get(pid, na["_default"])})
+import subprocess
+try:
+    log = subprocess.check_output(["git", "-C", "/repo", "log", "--format=%h %s"], text=True).split("\n")
+    base["hooks"]["source_commits"] = [l.split()[0] for l in log if l[9:].lower().startswith("verif hook") or "verif hook" in l.lower()]
+except Exception:
+    pass
+base["engines"][0]["serves_properties"] = [c["property_id"] for c in checks]
 base["checks"] = checks
 base["not_applicable"] = notapp
 json.dump(base, open(os.path.join(V, "MANIFEST.json"), "w"), indent=1)
